@@ -28,11 +28,11 @@ SHAPES = {
     "r(a,b,c,d)": node("", node("a"), node("b"), node("c"), node("d")),
 }
 QUICK_SHAPES = ["r", "r(a)", "r(a,b)", "r(a(g))", "r(a,b,c)", "r(a(g),b)", "r(b,a(g))", "r(a(g,h))", "r(a(g(k)))"]
-PATTERNS = ("both", "noprep", "nostart", "leaves", "alt", "inherited")
+PATTERNS = ("both", "noprep", "nostart", "leaves", "alt", "inherited", "awaitable")
 
 
 def has(pattern: str, path: str, nd: dict, phase: str, depth: int) -> bool:
-    if pattern in ("both", "inherited"):
+    if pattern in ("both", "inherited", "awaitable"):
         return True
     if pattern == "noprep":
         return phase == "start"
@@ -118,6 +118,8 @@ def build_program(shape: str, pattern: str, deps: tuple, extras: str, pos: str =
     for p, nd in paths(spec):
         if pattern == "inherited":
             nd["inherit"] = True
+        if pattern == "awaitable":
+            nd["awaitable_methods"] = True
         for phase in ("prepare", "start"):
             if (p, phase) not in present:
                 nd[phase] = None
@@ -256,7 +258,7 @@ class C05(E1Check):
                     for extras in (("plain", "tdres", "svc", "gen", "addc", "subctx") if not deps else ("plain",)):
                         for pos in (("before", "after", "opt", "subfirst") if deps else ("before",)):
                             for pub in (("res", "sync", "async", "union", "falsy") if len(deps) == 1 else ("res",)):
-                                if pattern == "inherited" and (pub != "res" or pos != "before"):
+                                if pattern in ("inherited", "awaitable") and (pub != "res" or pos != "before" or extras == "gen"):
                                     continue
                                 if pos == "opt" and (pub != "res" or not all(certainly_before(SHAPES[shape], *d) for d in deps)):
                                     continue
@@ -275,6 +277,12 @@ class C05(E1Check):
                     if p is not None:
                         progs.append(p)
         progs += [build_alias(v) for v in range(8)]
+        # sibling dependencies while a foreign subscriber of the surrounding context has a full queue
+        for shape in ("r(a,b)", "r(a(g),b)"):
+            for d in candidate_deps(shape)[::3]:
+                p = build_program(shape, "both", (d,), "plain", "before", "res")
+                if p is not None:
+                    progs.append(dict(p, audit=True))
         return progs
 
     def bound(self, tier: str, program: Any) -> int:
@@ -296,9 +304,18 @@ class C05(E1Check):
         qpoints: list[int] = []
         env.quiescent_hooks.append(lambda: qpoints.append(len(env.trace)))
         st: dict[str, Any] = {}
-        async with Context() as ctx:
+        from contextlib import AsyncExitStack
+        import warnings
+
+        async with Context() as ctx, AsyncExitStack() as audit:
+            if program.get("audit"):
+                # somebody else listens to the surrounding context with a one-slot queue and never reads (its queue is full)
+                await audit.enter_async_context(ctx.resource_added.stream_events(max_queue_size=1))
+                ctx.add_resource(RB("filler"), "filler")
             try:
-                inst = await start_component(tree.root_class, {}, timeout=None)
+                with warnings.catch_warnings():
+                    warnings.simplefilter("ignore")
+                    inst = await start_component(tree.root_class, {}, timeout=None)
                 env.log("returned", inst is tree.instances.get(""))
             except BaseException as e:  # noqa: BLE001
                 env.log("start-exc", type(e).__name__, str(e)[:200])
